@@ -573,6 +573,15 @@ fn autoq_directed(idx: u64) -> (usize, usize, usize) {
     let mut combos = vec![]; for cap0 in [2usize, 4, 8, 16] { for h in 0..cap0 { for v in 0..4 { combos.push((cap0, h, v)); } } }
     combos[(idx as usize) % combos.len()]
 }
+/// input-only tag: does the history ever fill a queue to exactly its capacity (only bulk pushes can)?
+fn autoq_tag(c: &mut Case, cap0: usize, steps: &[QStep]) {
+    let mk = |c0: usize| AgqModel::new(if c0 == usize::MAX { 4 } else { c0 }); let mut ma = mk(cap0); let mut mb: Option<AgqModel> = None; let mut full = false;
+    for st in steps { if st.op == Q::Clone { let mut n = AgqModel { cap: ma.cap, len: 0 }; for _ in 0..ma.len { n.push(); } mb = Some(n); continue; }
+        let m = match mb.as_mut() { Some(m) if st.on_b => m, _ => &mut ma };
+        match st.op { Q::Push => m.push(), Q::Pop => m.len = m.len.saturating_sub(1), Q::PushBulk(k) => { if k > 0 { m.reserve(k); m.len += k; } } Q::PopBulk(k) => m.len -= k.min(m.len), Q::Reserve(k) => m.reserve(k), Q::Clear => m.len = 0, _ => {} }
+        if m.len > 0 && m.full() { full = true; } }
+    if full { c.tag("autoq_exact_full"); }
+}
 fn drive_autoq(c: &mut Case, fam: &str, idx: u64) -> Res {
     mon::tracked_reset();
     let mut steps: Vec<QStep> = vec![]; let (mut has_b, mut la, mut lb) = (false, 0usize, 0usize);
@@ -607,13 +616,7 @@ fn drive_autoq(c: &mut Case, fam: &str, idx: u64) -> Res {
         _ => { cap0 = *c.rng.pick(autoq_caps()); let (n, ml) = match fam { "micro" => (c.rng.urange(30, 140), 40), "growth" => (c.rng.urange(150, 500), 600), _ => (c.rng.urange(80, 350), 100) }; random_q_ops(&mut c.rng, n, ml, &mut steps, &mut has_b, &mut la, &mut lb, true); }
     }
     c.input_str("cap0", &if cap0 == usize::MAX { "new".to_string() } else { cap0.to_string() }); c.input_str("ops", &encode_q(&steps)); c.set_nontrivial(steps.len() >= 8);
-    // input-only tag: does the history ever fill a queue to exactly its capacity (only bulk pushes can)?
-    { let mk = |c0: usize| AgqModel::new(if c0 == usize::MAX { 4 } else { c0 }); let mut ma = mk(cap0); let mut mb: Option<AgqModel> = None; let mut full = false;
-      for st in &steps { if st.op == Q::Clone { let mut n = AgqModel { cap: ma.cap, len: 0 }; for _ in 0..ma.len { n.push(); } mb = Some(n); continue; }
-        let m = match mb.as_mut() { Some(m) if st.on_b => m, _ => &mut ma };
-        match st.op { Q::Push => m.push(), Q::Pop => m.len = m.len.saturating_sub(1), Q::PushBulk(k) => { if k > 0 { m.reserve(k); m.len += k; } } Q::PopBulk(k) => m.len -= k.min(m.len), Q::Reserve(k) => m.reserve(k), Q::Clear => m.len = 0, _ => {} }
-        if m.len > 0 && m.full() { full = true; } }
-      if full { c.tag("autoq_exact_full"); } }
+    autoq_tag(c, cap0, &steps);
     let r = catch(|| run_autoq(c, cap0, &steps));
     let r = match r { Ok(r) => r, Err(p) => Err(bad(&p.class(), format!("panic at {}: {}", p.loc, p.msg))) };
     r?; live_check(0, "end of history")
@@ -895,6 +898,414 @@ fn drive_mmap_simd_ctor(c: &mut Case, idx: u64) -> Res {
 }
 
 // ---------------------------------------------------------------------------------------------
+// huge_ families: large element counts (> 65536, > 131072), capacity arguments just above powers of two, sizes around
+// the 16/20/24-bit limits of packed index entries. Oracles are the same models, but the whole-content comparison is
+// made at checkpoints only; between checkpoints every operation is followed by O(1) checks (len, sampled positions,
+// live-value accounting).
+// ---------------------------------------------------------------------------------------------
+const HUGE_CAPS: &[usize] = &[65537, 131073, 131074, 196609, 262145, 262146, 262147, 262148];
+const HUGE_SAMPLES: &[usize] = &[0, 1, 255, 256, 65534, 65535, 65536, 65537, 131071, 131072, 131073, 262143, 262144];
+
+pub trait VecHuge: VecSut {
+    /// construct with an explicit capacity argument (None: the container has no such constructor)
+    fn create_cap(_cap: usize) -> Result<Option<(Self, Vec<u64>)>, Fail> { Ok(None) }
+    fn create_small() -> Result<(Self, Vec<u64>), Fail> { let mut n = 1u64; Self::create(0, &mut n) }
+    fn peek(&self, i: usize) -> Option<u64>;
+    /// largest element count the huge histories may reach
+    const MAX_N: usize;
+}
+impl VecHuge for FastVec<Tracked> { const MAX_N: usize = 140_000; fn create_cap(cap: usize) -> Result<Option<(Self, Vec<u64>)>, Fail> { Ok(Some((must(FastVec::with_capacity(cap), "with_capacity")?, vec![]))) } fn peek(&self, i: usize) -> Option<u64> { self.as_slice().get(i).map(|t| t.id()) } }
+impl VecHuge for FastVec<u64> { const MAX_N: usize = 270_000; fn create_cap(cap: usize) -> Result<Option<(Self, Vec<u64>)>, Fail> { Ok(Some((must(FastVec::with_capacity(cap), "with_capacity")?, vec![]))) } fn peek(&self, i: usize) -> Option<u64> { self.as_slice().get(i).map(|t| t.id()) } }
+impl VecHuge for FastVec<u8> { const MAX_N: usize = 1_100_000; fn create_cap(cap: usize) -> Result<Option<(Self, Vec<u64>)>, Fail> { Ok(Some((must(FastVec::with_capacity(cap), "with_capacity")?, vec![]))) } fn peek(&self, i: usize) -> Option<u64> { self.as_slice().get(i).map(|t| t.id()) } }
+impl VecHuge for ValVec32<Tracked> { const MAX_N: usize = 140_000; fn create_cap(cap: usize) -> Result<Option<(Self, Vec<u64>)>, Fail> { Ok(Some((must(ValVec32::with_capacity(cap as u32), "with_capacity")?, vec![]))) } fn peek(&self, i: usize) -> Option<u64> { self.get(i as u32).map(|t| t.id()) } }
+impl VecHuge for VvNoSet { const MAX_N: usize = 140_000; fn create_cap(cap: usize) -> Result<Option<(Self, Vec<u64>)>, Fail> { Ok(Some((VvNoSet(must(ValVec32::with_capacity(cap as u32), "with_capacity")?), vec![]))) } fn peek(&self, i: usize) -> Option<u64> { self.0.get(i as u32).map(|t| t.id()) } }
+impl VecHuge for ValVec32<u64> { const MAX_N: usize = 270_000; fn create_cap(cap: usize) -> Result<Option<(Self, Vec<u64>)>, Fail> { Ok(Some((must(ValVec32::with_capacity(cap as u32), "with_capacity")?, vec![]))) } fn peek(&self, i: usize) -> Option<u64> { self.get(i as u32).map(|t| t.id()) } }
+impl VecHuge for CacheAlignedVec<Tracked> { const MAX_N: usize = 140_000; fn create_cap(cap: usize) -> Result<Option<(Self, Vec<u64>)>, Fail> { Ok(Some((must(CacheAlignedVec::with_capacity(cap), "with_capacity")?, vec![]))) } fn peek(&self, i: usize) -> Option<u64> { self.get(i).map(|t| t.id()) } }
+macro_rules! mmapvec_huge { ($t:ty, $max:expr) => { impl VecHuge for Mv<$t> {
+    const MAX_N: usize = $max;
+    // growth factor 1.0 / sync_on_write configurations rewrite the whole file on every push: only the cheap configurations here
+    fn create_small() -> Result<(Self, Vec<u64>), Fail> { let mut n = 1u64; Self::create(4, &mut n) }
+    fn create_cap(cap: usize) -> Result<Option<(Self, Vec<u64>)>, Fail> {
+        let dir = std::sync::Arc::new(tempfile::tempdir().map_err(|e| bad("__inconclusive", format!("tempdir: {e}")))?);
+        let v = if cap % 2 == 1 { must(MmapVec::<$t>::with_capacity_simd(cap), "with_capacity_simd")? } else { must(MmapVec::<$t>::create(dir.path().join("h.mv"), MmapVecConfig::builder().with_initial_capacity(cap).with_growth_factor(1.5).build()), "MmapVec::create")? };
+        if cap % 2 == 0 && v.capacity() < cap { return Err(bad("capacity", format!("capacity {} after create with initial_capacity {cap}", v.capacity()))); }
+        Ok(Some((Mv { v, dir, seq: 4 }, vec![])))
+    }
+    fn peek(&self, i: usize) -> Option<u64> { self.v.get(i).map(|t| t.id()) }
+} } }
+mmapvec_huge!(u64, 140_000);
+mmapvec_huge!(u8, 1_100_000);
+
+#[derive(Clone, Copy)]
+struct HStep { st: Step, checkpoint: bool }
+fn encode_hsteps(s: &[HStep]) -> String {
+    // run-length encoded (histories have > 10^5 single pushes)
+    let mut o = String::new(); let mut i = 0;
+    while i < s.len() { let mut j = i; while j + 1 < s.len() && s[j + 1].st.op.k == s[i].st.op.k && s[j + 1].st.op.a == s[i].st.op.a && s[j + 1].st.on_b == s[i].st.on_b && !s[j].checkpoint { j += 1; }
+        let st = s[i].st; if st.on_b { o.push('b'); } o.push_str(kcode(st.op.k)); match st.op.k { K::Push | K::Pop | K::Clear | K::Shrink | K::Clone | K::Probe => {} K::Fill => o.push_str(&format!("{}-{}", st.op.a, st.op.b)), _ => o.push_str(&st.op.a.to_string()) }
+        if j > i { o.push_str(&format!("x{}", j - i + 1)); } if s[j].checkpoint { o.push('!'); } o.push(' '); i = j + 1; }
+    o
+}
+
+/// History: grow from `start_len` to `target` elements through every boundary (single pushes across 65535..65537 and
+/// 131071..131074, bulk operations elsewhere), then the operations that re-index / move / reallocate at that size.
+fn huge_vec_script(r: &mut Rng, kinds: &[(K, u32)], start_len: usize, target: usize, elem_size: usize) -> Vec<HStep> {
+    let has = |k: K| kinds.iter().any(|x| x.0 == k);
+    let mut out: Vec<HStep> = Vec::new(); let mut len = start_len;
+    let push = |out: &mut Vec<HStep>, k: K, a: usize, b: usize, on_b: bool, cp: bool| out.push(HStep { st: Step { on_b, op: VOp { k, a, b } }, checkpoint: cp });
+    let bulk_kinds: Vec<K> = [K::Extend, K::ExtendSlice, K::PushN, K::Resize, K::ResizeWith].into_iter().filter(|&k| has(k)).collect();
+    let borders = [65535usize, 131071, 262143, 1 << 20];
+    while len < target {
+        // next border that has to be crossed with single pushes
+        let nb = borders.iter().copied().find(|&b| b + 4 > len && b < target);
+        if let Some(b) = nb { if len + 1 >= b { push(&mut out, K::Push, 0, 0, false, false); len += 1; continue; } }
+        let room = nb.map(|b| b.saturating_sub(1) - len).filter(|&x| x > 0).unwrap_or(target - len).min(target - len).max(1);
+        let mut k = match r.below(5) { 0 => r.urange(1, 3000), 1 => r.urange(3000, 40000), 2 => room, _ => r.urange(1000, 70000) }.min(room);
+        let kind = if bulk_kinds.is_empty() || r.chance(1, 4) { K::Push } else { *r.pick(&bulk_kinds) };
+        match kind {
+            K::Push => { let n = k.min(r.urange(500, 20000)); for _ in 0..n { push(&mut out, K::Push, 0, 0, false, false); } len += n; }
+            K::Resize | K::ResizeWith => { if elem_size > 8 { k = k.min(20000); } push(&mut out, kind, len + k, 0, false, false); len += k; }
+            K::PushN => { if k % 3 == 0 { k += 1; } push(&mut out, kind, k, 0, false, false); len += k; }   // (a % 3 == 0 means 3a in the ValVec32<u64> driver)
+            _ => { push(&mut out, kind, k, 0, false, false); len += k; }
+        }
+        if has(K::Reserve) && r.chance(1, 6) { let np = (len + 1).next_power_of_two(); push(&mut out, K::Reserve, np + 1 - len, 0, false, false); }
+    }
+    if let Some(l) = out.last_mut() { l.checkpoint = true; }
+    // operations at that size
+    let b16 = 65536usize.min(len.saturating_sub(1));
+    let mut ops: Vec<(K, usize, usize)> = vec![];
+    if has(K::Insert) { ops.extend([(K::Insert, 0, 0), (K::Insert, b16, 0), (K::Insert, usize::MAX, 0), (K::Insert, usize::MAX - 1, 0)]); }      // MAX = len, MAX-1 = len+1 (resolved below)
+    if has(K::Remove) { ops.extend([(K::Remove, 0, 0), (K::Remove, 65535.min(len - 1), 0), (K::Remove, usize::MAX - 2, 0), (K::Remove, usize::MAX, 0)]); } // MAX-2 = len-1
+    if has(K::Mutate) { ops.extend([(K::Mutate, b16, 0), (K::Mutate, usize::MAX - 2, 0), (K::Mutate, 65535.min(len - 1), 0)]); }
+    if has(K::Set) { ops.extend([(K::Set, b16, 0), (K::Set, usize::MAX, 0), (K::Set, usize::MAX - 2, 0)]); }
+    if has(K::Fill) { ops.extend([(K::Fill, 65000.min(len / 2), 66000.min(len), ), (K::Fill, 0, usize::MAX), (K::Fill, usize::MAX, usize::MAX - 1), (K::Fill, 65535.min(len - 1), 65537.min(len))]); }
+    if has(K::Pop) { for _ in 0..r.urange(3, 300) { ops.push((K::Pop, 0, 0)); } }
+    if has(K::PopBulk) { ops.extend([(K::PopBulk, 1000, 0), (K::PopBulk, usize::MAX - 1, 0)]); }
+    if has(K::Truncate) { ops.push((K::Truncate, usize::MAX - 3, 0)); }
+    if has(K::Reserve) { ops.push((K::Reserve, 70000, 0)); }
+    if has(K::EnsureCap) { ops.push((K::EnsureCap, 1, 0)); }
+    if has(K::Shrink) { ops.push((K::Shrink, 0, 0)); }
+    if has(K::Probe) { ops.push((K::Probe, 0, 0)); }
+    if has(K::Extend) { ops.push((K::Extend, 70000.min(if elem_size > 8 { 5000 } else { 70000 }), 0)); }
+    if has(K::ExtendSlice) { ops.push((K::ExtendSlice, 66000, 0)); }
+    if has(K::CopyFrom) { ops.push((K::CopyFrom, usize::MAX - 4, 0)); }
+    r.shuffle(&mut ops);
+    let clone_at = if has(K::Clone) { r.usize_below(ops.len().max(1)) } else { usize::MAX };
+    let mut lb: Option<usize> = None;
+    for (i, &(k, a, b)) in ops.iter().enumerate() {
+        if i == clone_at { push(&mut out, K::Clone, 0, 0, false, true); lb = Some(len); }
+        let on_b = lb.is_some() && r.chance(1, 3); let l = if on_b { lb.unwrap() } else { len };
+        let res = |x: usize| match x { usize::MAX => l, x if x == usize::MAX - 1 => l + 1, x if x == usize::MAX - 2 => l.saturating_sub(1), x if x == usize::MAX - 3 => l.saturating_sub(1000), x if x == usize::MAX - 4 => l + 3, x => x };
+        let (a, b) = (res(a), res(b));
+        let nl = match k { K::Insert => if a <= l { l + 1 } else { l }, K::Remove => if a < l { l - 1 } else { l }, K::Pop => l.saturating_sub(1), K::PopBulk => if a <= l { l - a } else { l }, K::Truncate => a.min(l), K::Extend | K::ExtendSlice => l + a, K::CopyFrom => a.max(l).max(1), _ => l };
+        if on_b { lb = Some(nl); } else { len = nl; }
+        push(&mut out, k, a, b, on_b, i % 4 == 3);
+    }
+    // shrink below the 16-bit border again, then a final growth step
+    if has(K::Resize) { push(&mut out, K::Resize, 65537.min(len), 0, false, false); push(&mut out, K::Resize, 65535.min(len), 0, false, true); }
+    else if has(K::Truncate) { push(&mut out, K::Truncate, 65537.min(len), 0, false, false); push(&mut out, K::Truncate, 65535.min(len), 0, false, true); }
+    for _ in 0..5 { push(&mut out, K::Push, 0, 0, false, false); }
+    if has(K::Clear) { push(&mut out, K::Clear, 0, 0, r.bool() && lb.is_some(), true); for _ in 0..3 { push(&mut out, K::Push, 0, 0, false, false); } }
+    if let Some(l) = out.last_mut() { l.checkpoint = true; }
+    out
+}
+
+fn huge_sample_check<S: VecHuge>(s: &S, m: &[u64], what: &str) -> Res {
+    if s.sut_len() != m.len() { return Err(bad("len", format!("{what}: len() {} want {}", s.sut_len(), m.len()))); }
+    let n = m.len();
+    for &i in HUGE_SAMPLES.iter().chain([n.wrapping_sub(1), n / 2, n.wrapping_sub(2)].iter()) { if i < n { let g = s.peek(i); if g != Some(m[i]) { return Err(bad("content", format!("{what}: element {i} is {g:?} want {:#x} (len {n})", m[i]))); } } }
+    if s.peek(n).is_some() { return Err(bad("oob_accepted", format!("{what}: element at index len={n} is visible"))); }
+    Ok(())
+}
+fn run_vec_huge<S: VecHuge>(c: &mut Case, cap: Option<usize>, steps: &[HStep]) -> Res {
+    let mut next = 1u64;
+    let (mut a, mut ma) = match cap { Some(cap) => match S::create_cap(cap)? { Some(x) => x, None => S::create_small()? }, None => S::create_small()? };
+    let mut b: Option<(S, Vec<u64>)> = None;
+    for (i, h) in steps.iter().enumerate() {
+        let st = &h.st;
+        let ctxs = |f: Fail| Fail { oracle: f.oracle, detail: format!("step {i} {}{}({},{}): {}", if st.on_b { "clone." } else { "" }, kcode(st.op.k), st.op.a, st.op.b, f.detail) };
+        if st.op.k == K::Clone {
+            if let Some(cl) = a.try_clone().map_err(ctxs)? { cmp_model("fresh clone", &cl.snapshot().map_err(ctxs)?, &ma).map_err(|f| ctxs(Fail { oracle: format!("clone_{}", f.oracle), detail: f.detail }))?; c.ev(ma.len() as u64); b = Some((cl, ma.clone())); c.note("clones", 1); }
+        } else {
+            let (s, m) = match b.as_mut() { Some(x) if st.on_b => (&mut x.0, &mut x.1), _ => (&mut a, &mut ma) };
+            s.apply(&st.op, m, &mut next, c).map_err(ctxs)?;
+        }
+        huge_sample_check(&a, &ma, "original").map_err(ctxs)?; let mut held = ma.len();
+        if let Some((sb, mb)) = b.as_ref() { huge_sample_check(sb, mb, "clone").map_err(ctxs)?; held += mb.len(); }
+        if S::E::TRACKED { live_check(held, "after op").map_err(ctxs)?; }
+        c.ev(8);
+        if h.checkpoint {
+            cmp_model("original", &a.snapshot().map_err(ctxs)?, &ma).map_err(ctxs)?; c.ev(ma.len() as u64);
+            if let Some((sb, mb)) = b.as_ref() { cmp_model("clone", &sb.snapshot().map_err(ctxs)?, mb).map_err(ctxs)?; c.ev(mb.len() as u64); }
+            c.note("checkpoints", 1);
+        }
+        if ma.len() > 65536 { c.note("ops_above_65536", 1); } if ma.len() > 131072 { c.note("ops_above_131072", 1); }
+    }
+    drop(b);
+    if S::E::TRACKED { live_check(ma.len(), "after dropping the clone")?; }
+    drop(a);
+    if S::E::TRACKED { live_check(0, "after dropping the container")?; }
+    Ok(())
+}
+/// `with_cap`: family huge_cap (capacity argument just above a power of two) / huge_grow (start empty, grow through every resize step)
+fn drive_vec_huge<S: VecHuge>(c: &mut Case, with_cap: bool, idx: u64) -> Res {
+    mon::tracked_reset();
+    let esz = std::mem::size_of::<S::E>();
+    let (cap, target) = if with_cap {
+        let cap = HUGE_CAPS[(idx as usize + c.rng.usize_below(2) * 4) % HUGE_CAPS.len()];
+        // fill to the requested capacity and one beyond (first reallocation) where affordable, else past 65537
+        (Some(cap), if cap + 2 <= S::MAX_N { cap + 1 + c.rng.usize_below(2) } else { 65537 + c.rng.usize_below(3000) })
+    } else {
+        let t = *c.rng.pick(&[65537usize, 70_000, 131_073, 131_074, 140_000, 262_145, (1 << 20) + 1]); (None, t.min(S::MAX_N) + c.rng.usize_below(3))
+    };
+    let steps = huge_vec_script(&mut c.rng, S::KINDS, 0, target, esz);
+    c.input_str("cap", &format!("{cap:?}")); c.input_str("target", &target.to_string()); c.input_str("ops", &encode_hsteps(&steps)); c.set_nontrivial(true);
+    S::tags(c, 0, &steps.iter().map(|h| h.st).collect::<Vec<_>>());
+    let r = catch(|| run_vec_huge::<S>(c, cap, &steps));
+    let r = match r { Ok(r) => r, Err(p) => Err(bad(&p.class(), format!("panic at {}: {}", p.loc, p.msg))) };
+    r?;
+    if S::E::TRACKED { live_check(0, "end of history")?; }
+    Ok(())
+}
+
+fn drive_bumpvec_huge(c: &mut Case) -> Res {
+    mon::tracked_reset();
+    let cap_a = *c.rng.pick(&[65535usize, 65536, 65537]); let cap_b = *c.rng.pick(&[131073usize, 131074, 70000]); let pad = c.rng.usize_below(7);
+    c.input_str("caps", &format!("{cap_a},{cap_b},{pad}")); c.set_nontrivial(true);
+    let seed = c.rng.next();
+    wrap_panic(catch(|| -> Res {
+        let mut r = Rng::new(seed);
+        let arena = must(BumpAllocator::new(8 << 20), "BumpAllocator::new")?;
+        for _ in 0..pad { must(arena.alloc::<u8>(), "alloc")?; }
+        let mut a: BumpVec<Tracked> = must(BumpVec::new_in(&arena, cap_a), "BumpVec::new_in")?;
+        let mut b: BumpVec<u64> = must(BumpVec::new_in(&arena, cap_b), "BumpVec::new_in")?;
+        let (mut ma, mut mb): (Vec<u64>, Vec<u64>) = (vec![], vec![]); let mut next = 1u64;
+        let mut phase_push = true; let mut refusals = 0u64;
+        for step in 0..(cap_a + cap_b) * 2 + 4000 {
+            if step % 4096 == 0 { phase_push = step < (cap_a + cap_b) * 3 / 2 || r.bool(); }
+            let pushing = if phase_push { !r.chance(1, 9) } else { r.chance(1, 9) };
+            if r.bool() { if pushing { let id = nid(&mut next); let res = a.push(Tracked::new(id)); if ma.len() < cap_a { must(res, "push")?; ma.push(id); } else { if res.is_ok() { return Err(bad("full_accepted", format!("push accepted at len {} == capacity", ma.len()))); } refusals += 1; } } else { let g = a.pop().map(|t| t.id); if g != ma.pop() { return Err(bad("pop", format!("step {step}: pop {g:?}"))); } } }
+            else { if pushing { let id = nid(&mut next); let res = b.push(u64::mk(id)); if mb.len() < cap_b { must(res, "push")?; mb.push(u64::norm(id)); } else { if res.is_ok() { return Err(bad("full_accepted", format!("push accepted at len {} == capacity", mb.len()))); } refusals += 1; } } else { let g = b.pop(); if g != mb.pop() { return Err(bad("pop", format!("step {step}: pop {g:?}"))); } } }
+            if a.len() != ma.len() || b.len() != mb.len() || a.as_slice().last().map(|t| t.id) != ma.last().copied() || b.as_slice().last() != mb.last() { return Err(bad("content", format!("step {step}: len/last element differ (lens {} {})", ma.len(), mb.len()))); }
+            live_check(ma.len(), "after op")?; c.ev(4);
+            if step % 50_000 == 49_999 { cmp_model("a", &snap_slice(a.as_slice())?, &ma)?; cmp_model("b", &snap_slice(b.as_slice())?, &mb)?; c.ev((ma.len() + mb.len()) as u64); c.note("checkpoints", 1); }
+        }
+        cmp_model("a", &snap_slice(a.as_slice())?, &ma)?; cmp_model("b", &snap_slice(b.as_slice())?, &mb)?; c.note("full_refused", refusals); c.note("max_len", ma.len().max(mb.len()) as u64);
+        drop(a); live_check(0, "after dropping a")?; drop(b); Ok(())
+    }))
+}
+
+// ---- huge queues -------------------------------------------------------------------------------
+/// capacity arguments just above powers of two, then enough traffic to bring head/tail to the end of the ring and wrap
+fn drive_autoq_huge(c: &mut Case, fam: &str, idx: u64) -> Res {
+    mon::tracked_reset();
+    let mut steps: Vec<QStep> = vec![]; let p = |op: Q| QStep { on_b: false, op };
+    let cap0; let mut desc = String::new();
+    if fam == "huge_cap_wrap" {
+        const CAPS: &[usize] = &[65535, 65536, 65537, 131073, 131074, 196609, 262145, 262146, 262147, 262148];
+        cap0 = CAPS[(idx as usize + c.rng.usize_below(5) * 2) % CAPS.len()];
+        let ring = cap0.next_power_of_two();
+        // advance head to just below the end of the ring with modest live size
+        let chunk = *c.rng.pick(&[4096usize, 8191, 8192, 10000]); let stop = ring - 1 - c.rng.usize_below(3000); let mut head = 0usize;
+        while head + chunk < stop { steps.push(p(Q::PushBulk(chunk))); if c.rng.bool() { steps.push(p(Q::PopBulk(chunk))); } else { let j = c.rng.urange(1, chunk - 1); steps.push(p(Q::PopBulk(j))); steps.push(p(Q::PopBulk(chunk - j))); } head += chunk; }
+        while head < stop { steps.push(p(Q::Push)); steps.push(p(Q::Pop)); head += 1; }
+        // wrap: bulk push straddling the end, singles, bulk pop straddling the end
+        let k = c.rng.urange(3001, 9000); steps.push(p(Q::PushBulk(k))); steps.push(p(Q::Deep));
+        for _ in 0..20 { steps.push(p(Q::Push)); } for _ in 0..10 { steps.push(p(Q::Pop)); }
+        steps.push(p(Q::PopBulk(k / 2))); steps.push(p(Q::Clone)); steps.push(QStep { on_b: true, op: Q::PopBulk(k) }); steps.push(QStep { on_b: true, op: Q::Push });
+        // growth while wrapped at an offset > 65535 (only for the rings where a full ring of elements is affordable)
+        if ring <= 131072 { steps.push(p(Q::Reserve(ring + 1))); for _ in 0..10 { steps.push(p(Q::Push)); } steps.push(p(Q::PushBulk(ring / 2))); steps.push(p(Q::PopBulk(ring / 2 - 7))); }
+        else { let live = k - k / 2 + 10; steps.push(p(Q::Reserve(ring - live + 2))); for _ in 0..10 { steps.push(p(Q::Push)); } steps.push(p(Q::PopBulk(100))); }
+        desc = format!("chunk {chunk} stop {stop} k {k}");
+    } else {
+        // huge_grow: start small, grow through every doubling past 65536 / 131072 elements with pops interleaved (ring wrapped at each growth)
+        cap0 = *c.rng.pick(&[usize::MAX, 4usize, 17, 1000]); let target = *c.rng.pick(&[65537usize, 70000, 131073, 131074]) + c.rng.usize_below(5);
+        let pat = c.rng.urange(2, 6); let mut len = 0usize; let mut i = 0usize;
+        while len < target { i += 1; if i % (pat + 1) == 0 && len > 0 { steps.push(p(Q::Pop)); len -= 1; } else if i % 5003 == 0 { let k = c.rng.urange(100, 3000); steps.push(p(Q::PushBulk(k))); len += k; } else if i % 7001 == 0 { let k = c.rng.urange(1, 500).min(len); steps.push(p(Q::PopBulk(k))); len -= k; } else if i % 9001 == 0 { steps.push(p(Q::Reserve((len + 1).next_power_of_two() - len))); } else { steps.push(p(Q::Push)); len += 1; } }
+        steps.push(p(Q::Clone));
+        for _ in 0..200 { let on_b = c.rng.bool(); steps.push(QStep { on_b, op: *c.rng.pick(&[Q::Push, Q::Pop, Q::PushBulk(70), Q::PopBulk(1000), Q::Reserve(3)]) }); }
+        steps.push(QStep { on_b: true, op: Q::Clear }); steps.push(QStep { on_b: true, op: Q::Push }); steps.push(p(Q::PopBulk(66000)));
+        desc.push_str(&format!("target {target} pat {pat}"));
+    }
+    c.input_str("cap0", &if cap0 == usize::MAX { "new".to_string() } else { cap0.to_string() }); c.input_str("shape", &desc); c.input_str("nsteps", &steps.len().to_string()); c.set_nontrivial(true);
+    { let mut h = 0u64; for st in &steps { let v = match st.op { Q::Push => 1, Q::Pop => 2, Q::PushBulk(k) => 3 + 8 * k as u64, Q::PopBulk(k) => 4 + 8 * k as u64, Q::Reserve(k) => 5 + 8 * k as u64, Q::Clear => 6, Q::Clone => 7, Q::Deep => 8 }; h = (h ^ v ^ st.on_b as u64).wrapping_mul(0x100000001b3); } c.hash_more(&h.to_le_bytes()); }
+    autoq_tag(c, cap0, &steps);
+    let r = catch(|| -> Res {
+        if cap0 != usize::MAX { let q: AutoGrowCircularQueue<Tracked> = AutoGrowCircularQueue::with_capacity(cap0); if q.capacity() < cap0 { return Err(bad("capacity", format!("with_capacity({cap0}) has capacity {}", q.capacity()))); } }
+        run_autoq(c, cap0, &steps)
+    });
+    let r = match r { Ok(r) => r, Err(p) => Err(bad(&p.class(), format!("panic at {}: {}", p.loc, p.msg))) };
+    r?; live_check(0, "end of history")
+}
+
+/// FixedCircularQueue with N just above 2^16: several trips around the ring, full / empty at large offsets.
+fn drive_fixedq_huge(c: &mut Case) -> Res {
+    const N: usize = 65537;
+    let seed = c.rng.next(); c.input_str("N", &N.to_string()); c.input_str("seed", &seed.to_string()); c.set_nontrivial(true);
+    // the queue lives inline (N * 24 bytes): run the case on a thread with a large stack; Tracked accounting is thread local
+    let res = std::thread::scope(|sc| std::thread::Builder::new().stack_size(64 << 20).spawn_scoped(sc, || -> Result<(u64, u64, u64), Fail> {
+        mon::tracked_reset();
+        let r = catch(|| -> Result<(u64, u64, u64), Fail> {
+            let mut r = Rng::new(seed);
+            let mut q: Box<FixedCircularQueue<Tracked, N>> = Box::new(FixedCircularQueue::new()); let mut m: VecDeque<u64> = VecDeque::new(); let mut next = 1u64;
+            let (mut ev, mut refused, mut empties) = (0u64, 0u64, 0u64);
+            // phases: fill completely, drain partly, refill across the wrap point, drain completely, partial fills at random offsets
+            let phases: Vec<(usize, bool)> = vec![(N + 3, true), (r.urange(30000, 60000), false), (N, true), (N + 2, false), (r.urange(1, N), true), (r.urange(1, N), false), (N, true), (3, false), (5, true)];
+            for (n, pushing) in phases { for _ in 0..n {
+                let do_push = if r.chance(1, 64) { !pushing } else { pushing };
+                if do_push { let id = nid(&mut next); let res = q.push_back(Tracked::new(id)); if m.len() < N { must(res, "push_back")?; m.push_back(id); } else { if res.is_ok() { return Err(bad("full_accepted", format!("push_back accepted on a full queue (N={N})"))); } refused += 1; } }
+                else { let g = q.pop_front(); let w = m.pop_front(); match (&g, w) { (None, None) => { empties += 1; } (Some(t), Some(w)) if t.id == w && t.intact() => {} _ => return Err(bad("pop_front", format!("pop_front {:?} want {w:?}", g.as_ref().map(|t| t.id)))) } }
+                if q.len() != m.len() || q.is_empty() != m.is_empty() || q.is_full() != (m.len() == N) { return Err(bad("len", format!("len {} want {} / is_full {}", q.len(), m.len(), q.is_full()))); }
+                let f = q.front(); if f.map(|t| t.id) != m.front().copied() { return Err(bad("front", format!("front {:?} want {:?}", f.map(|t| t.id), m.front()))); }
+                let b = q.back(); if b.map(|t| t.id) != m.back().copied() { return Err(bad("back", format!("back {:?} want {:?}", b.map(|t| t.id), m.back()))); }
+                live_check(m.len(), "after op")?; ev += 5;
+            } }
+            if r.bool() { q.clear(); m.clear(); live_check(0, "after clear")?; }
+            drop(q); live_check(0, "after dropping the queue")?;
+            Ok((ev, refused, empties))
+        });
+        match r { Ok(r) => r, Err(p) => Err(bad(&p.class(), format!("panic at {}: {}", p.loc, p.msg))) }
+    }).map(|h| h.join()));
+    match res { Ok(Ok(r)) => { let (ev, refused, empties) = r?; c.ev(ev); c.note("full_refused", refused); c.note("pop_empty", empties); Ok(()) } Ok(Err(_)) => Err(bad("panic:thread", "worker thread panicked".into())), Err(e) => crate::ctx::inconclusive(format!("cannot spawn thread: {e}")) }
+}
+
+// ---- huge string vectors -----------------------------------------------------------------------
+/// deterministic string number `i` of a huge pool; `shape` selects the distribution (many duplicates / dominant value / distinct)
+fn huge_str(i: usize, shape: u32, seed: u64) -> String {
+    let h = (i as u64 ^ seed).wrapping_mul(0x9E37_79B9_7F4A_7C15) >> 17;
+    match shape % 4 {
+        0 => format!("{:06}{}", i % 50_000, ["", "x", "yz", "é", "abcabc"][(h % 5) as usize]),          // > 65536 entries, duplicates beyond the 50000th
+        1 => if h % 10 < 8 { "dominant".to_string() } else { format!("k{:x}", h % 100_000) },              // one value 80 % of the time
+        2 => format!("{:x}", h),                                                                             // practically distinct, unsorted
+        _ => { let l = (h % 24) as usize; let b = (b'a' + (h % 3) as u8) as char; let mut s: String = std::iter::repeat(b).take(l).collect(); s.push_str(&format!("{}", i % 7)); s } // long runs of one symbol, short
+    }
+}
+fn huge_positions(n: usize, r: &mut Rng, k: usize) -> Vec<usize> {
+    let mut v: Vec<usize> = HUGE_SAMPLES.iter().copied().filter(|&i| i < n).collect(); if n > 0 { v.push(n - 1); v.push(n / 2); } for _ in 0..k { if n > 0 { v.push(r.usize_below(n)); } } v
+}
+fn huge_pool(c: &mut Case) -> (usize, u32, u64, Vec<String>) {
+    let n = *c.rng.pick(&[65537usize, 70_000, 131_073, 131_074]) + c.rng.usize_below(3); let shape = c.rng.below(4) as u32; let seed = c.rng.next();
+    c.input_str("n", &n.to_string()); c.input_str("shape", &shape.to_string()); c.input_str("seed", &seed.to_string()); c.set_nontrivial(true);
+    (n, shape, seed, (0..n).map(|i| huge_str(i, shape, seed)).collect())
+}
+
+fn drive_sortable_huge_count(c: &mut Case) -> Res {
+    let (n, _shape, _seed, mut m) = huge_pool(c);
+    // a few long strings around the 16-bit and (allowed side of the) 20-bit length limits, at large arena offsets
+    let longs = [65535usize, 65536, 65537, (1 << 20) - 1]; let lp = c.rng.usize_below(n);
+    wrap_panic(catch(|| -> Res {
+        let mut r = c.rng.fork();
+        for (j, &l) in longs.iter().enumerate() { let pos = (lp + j * 1000) % m.len(); m[pos] = std::iter::repeat((b'A' + j as u8) as char).take(l).collect(); }
+        let mut v = SortableStrVec::with_capacity(if r.bool() { 65537 } else { 0 });
+        for (i, s) in m.iter().enumerate() { let id = must(v.push_str(s), "push_str")?; if id != i { return Err(bad("push_id", format!("push returned id {id} want {i}"))); } }
+        let check = |v: &SortableStrVec, r: &mut Rng, c: &mut Case| -> Res {
+            if v.len() != m.len() { return Err(bad("len", format!("len {} want {}", v.len(), m.len()))); }
+            for i in huge_positions(m.len(), r, 3000) { opt_eq("get", i, v.get(i), Some(&m[i]))?; } opt_eq("get", m.len(), v.get(m.len()), None)?;
+            let mut k = 0; for (i, s) in v.iter().enumerate() { if s != m[i] { return Err(bad("iter", format!("iter() element {i} differs"))); } k += 1; } if k != m.len() { return Err(bad("iter", "iter() length".into())); }
+            c.ev(m.len() as u64 + 3000); Ok(()) };
+        check(&v, &mut r, c)?;
+        let mut sorted: Vec<&str> = m.iter().map(|s| s.as_str()).collect(); sorted.sort_unstable();
+        for which in 0..2 { if which == 0 { must(v.sort(), "sort")?; } else { must(v.radix_sort(), "radix_sort")?; }
+            for i in 0..sorted.len() { if v.get_sorted(i) != Some(sorted[i]) { return Err(bad("sorted_order", format!("{}: position {i} differs", if which == 0 { "sort" } else { "radix_sort" }))); } }
+            opt_eq("get_sorted", sorted.len(), v.get_sorted(sorted.len()), None)?; c.ev(sorted.len() as u64);
+            for i in huge_positions(sorted.len(), &mut r, 300) { let nd = sorted[i]; match v.binary_search(nd) { Ok(j) => { if v.get_sorted(j) != Some(nd) { return Err(bad("binary_search", format!("Ok({j}) but element differs"))); } } Err(j) => return Err(bad("binary_search", format!("Err({j}) for a stored string"))) } c.ev(1); }
+            for nd in ["", "zzzzzzzzzz", "00", "dominanu"] { match v.binary_search(nd) { Ok(j) => { if v.get_sorted(j) != Some(nd) { return Err(bad("binary_search", format!("Ok({j}) but element differs"))); } } Err(j) => { let lb = sorted.partition_point(|s| *s < nd); if sorted.binary_search(&nd).is_ok() || j != lb { return Err(bad("binary_search", format!("Err({j}) want insertion point {lb}"))); } } } }
+            check(&v, &mut r, c)?; }
+        must(v.sort_by_length(), "sort_by_length")?; let mut lens: Vec<usize> = m.iter().map(|s| s.len()).collect(); lens.sort_unstable();
+        for i in 0..lens.len() { if v.get_sorted(i).map(|s| s.len()) != Some(lens[i]) { return Err(bad("sorted_order", format!("sort_by_length: position {i}"))); } }
+        let cl = v.clone(); check(&cl, &mut r, c).map_err(|f| bad(&format!("clone_{}", f.oracle), f.detail))?;
+        v.clear(); if v.len() != 0 || v.get(0).is_some() { return Err(bad("len", "after clear".into())); } must(v.push_str("again"), "push_str")?; opt_eq("get", 0, v.get(0), Some("again"))?;
+        check(&cl, &mut r, c)
+    }))
+}
+
+fn drive_zosorted_huge(c: &mut Case) -> Res {
+    // ZoSortedStrVec::get costs two select1 calls whose hint search is linear in the sample distance: positions are sampled
+    let n = *c.rng.pick(&[65537usize, 65538, 70_000]); let ctor = c.rng.below(3); let shape = if ctor == 0 { 2 } else { c.rng.below(4) as u32 }; let seed = c.rng.next();
+    c.input_str("n", &n.to_string()); c.input_str("shape", &shape.to_string()); c.input_str("seed", &seed.to_string()); c.input_str("ctor", &ctor.to_string()); c.set_nontrivial(true);
+    wrap_panic(catch(|| -> Res {
+        let ss: Vec<String> = (0..n).map(|i| huge_str(i, shape, seed)).collect();
+        let mut r = c.rng.fork(); let mut m = ss.clone(); m.sort();
+        let v = match ctor { 0 => { m.dedup(); must(ZoSortedStrVec::from_strings(ss.clone()), "from_strings")? } 1 => must(ZoSortedStrVec::from_sorted_strings(m.clone()), "from_sorted_strings")?,
+            _ => { let mut sv = SortableStrVec::new(); for s in &ss { must(sv.push_str(s), "push_str")?; } must(ZoSortedStrVec::from_sortable_str_vec(sv), "from_sortable_str_vec")? } };
+        if v.len() != m.len() { return Err(bad("len", format!("len {} want {}", v.len(), m.len()))); }
+        c.note("strings", m.len() as u64);
+        for i in huge_positions(m.len(), &mut r, 110) { opt_eq("get", i, v.get(i), Some(&m[i]))?; c.ev(1); } opt_eq("get", m.len(), v.get(m.len()), None)?;
+        for (i, s) in v.iter().take(40).enumerate() { if s != m[i] { return Err(bad("iter", format!("iter() element {i} differs"))); } }
+        for i in [65535usize, 65536, m.len() - 1, r.usize_below(m.len())].into_iter().filter(|&i| i < m.len()) { let nd = &m[i]; match v.binary_search(nd) { Ok(j) => { if m.get(j) != Some(nd) { return Err(bad("binary_search", format!("Ok({j}) but element differs"))); } } Err(j) => return Err(bad("binary_search", format!("Err({j}) for a stored string"))) } c.ev(1); }
+        for nd in ["", "zzzzzzzzzz", "dominanu"] { if let Err(j) = v.binary_search(nd) { if m.binary_search_by(|s| s.as_str().cmp(nd)).is_ok() || j != lower_bound(&m, nd) { return Err(bad("binary_search", format!("Err({j}) want {}", lower_bound(&m, nd)))); } } }
+        let cl = v.clone(); for i in [65536usize, m.len() - 1, r.usize_below(m.len())].into_iter().filter(|&i| i < m.len()) { opt_eq("get", i, cl.get(i), Some(&m[i])).map_err(|f| bad("clone_content", f.detail))?; }
+        Ok(())
+    }))
+}
+
+fn drive_fixedlen_huge<const N: usize>(c: &mut Case, arena_limit: bool) -> Res {
+    // huge_count: > 65536 / > 131072 strings (arena offsets far beyond 2^16);
+    // huge_arena_limit: 255-byte strings until the documented 16 MiB arena limit is reached: the push that would exceed it must be refused, content intact
+    let n = if arena_limit { 66_000 } else { *c.rng.pick(&[65537usize, 131_074]) + c.rng.usize_below(3) }; let seed = c.rng.next();
+    c.input_str("n", &n.to_string()); c.input_str("seed", &seed.to_string()); c.input_str("arena_limit", &arena_limit.to_string()); c.set_nontrivial(true);
+    wrap_panic(catch(|| -> Res {
+        let mut r = c.rng.fork();
+        let mk = |i: usize| -> String { if arena_limit { let mut s = format!("{i:08}"); let b = (b'a' + (i % 26) as u8) as char; while s.len() < 255.min(N) { s.push(b); } s } else { let s = huge_str(i, 0, seed); s.chars().take(N.min(s.len())).filter(|ch| ch.is_ascii()).collect() } };
+        let mut v: FixedLenStrVec<N> = if r.bool() { FixedLenStrVec::with_capacity(65537) } else { FixedLenStrVec::new() };
+        let mut stored = 0usize; let mut bytes = 0usize; let mut refused = 0u64;
+        for i in 0..n { let s = mk(i); let res = v.push(&s);
+            if bytes + s.len() >= (1 << 24) { if res.is_ok() { return Err(bad("limit_accepted", format!("push accepted with arena at {bytes} + {} bytes (documented limit 16 MiB)", s.len()))); } refused += 1; if stored != i { continue; } }
+            else { must(res, "push")?; if stored != i { return Err(bad("driver", "accepted after refusal".into())); } stored += 1; bytes += s.len(); }
+            if v.len() != stored { return Err(bad("len", format!("len {} want {stored}", v.len()))); }
+            if i % 8192 == 0 || i == 65535 || i == 65536 || i == 65537 { opt_eq("get", stored - 1, v.get(stored - 1), Some(&mk(stored - 1)))?; opt_eq("get", stored, v.get(stored), None)?; c.ev(2); } }
+        if arena_limit && N >= 255 && refused == 0 { return Err(bad("driver", "arena limit not reached".into())); }
+        c.note("limit_refused", refused);
+        for i in huge_positions(stored, &mut r, 4000) { let w = mk(i); opt_eq("get", i, v.get(i), Some(&w))?; if v.get_bytes(i) != Some(w.as_bytes()) { return Err(bad("content", format!("get_bytes({i})"))); } c.ev(2); }
+        if arena_limit { for i in [0usize, stored - 1, stored / 2] { let w = mk(i); if v.find_exact(&w) != Some(i) { return Err(bad("find_exact", format!("find_exact of string {i} = {:?}", v.find_exact(&w)))); } } }
+        Ok(())
+    }))
+}
+
+fn drive_bitpacked_huge<V: StrPushGet + Clone>(c: &mut Case, mk: fn() -> V) -> Res {
+    let (n, _shape, _seed, mut m) = huge_pool(c); let lp = c.rng.usize_below(n);
+    wrap_panic(catch(|| -> Res {
+        let mut r = c.rng.fork();
+        for (j, &l) in [65535usize, 65536, 65537, (1 << 20) + 1].iter().enumerate() { let pos = (lp + j * 1000) % m.len(); m[pos] = std::iter::repeat((b'A' + j as u8) as char).take(l).collect(); }
+        let mut v = mk();
+        for (i, s) in m.iter().enumerate() { let id = v.spush(s).map_err(|e| bad("op_err", format!("push: {e}")))?; if id != i { return Err(bad("push_id", format!("push returned {id} want {i}"))); } }
+        let check = |v: &V, r: &mut Rng, c: &mut Case| -> Res {
+            if v.slen() != m.len() { return Err(bad("len", format!("len {} want {}", v.slen(), m.len()))); }
+            for i in huge_positions(m.len(), r, 4000) { opt_eq("get", i, v.sget(i), Some(&m[i]))?; if v.sget_bytes(i) != Some(m[i].as_bytes()) { return Err(bad("content", format!("get_bytes({i})"))); } }
+            opt_eq("get", m.len(), v.sget(m.len()), None)?;
+            let it = v.siter(); if it.len() != m.len() { return Err(bad("iter", "iter() length".into())); } for i in 0..it.len() { if it[i] != m[i] { return Err(bad("iter", format!("iter() element {i} differs"))); } }
+            c.ev(m.len() as u64 + 8000); Ok(()) };
+        check(&v, &mut r, c)?;
+        let mut cl = v.clone(); let id = cl.spush("only in the clone").map_err(|e| bad("op_err", e))?; if id != m.len() || cl.sget(id) != Some("only in the clone") || v.slen() != m.len() { return Err(bad("clone_content", "clone diverge".into())); }
+        check(&v, &mut r, c)?;
+        let w = m.iter().position(|x| x == &m[m.len() - 1]); if v.sfind(&m[m.len() - 1]) != w { return Err(bad("find", "find_simd of the last string".into())); }
+        Ok(())
+    }))
+}
+
+fn drive_advstr_huge(c: &mut Case, level: u8) -> Res {
+    let n = if level >= 2 { 66_000 } else { *c.rng.pick(&[65537usize, 131_074]) } + c.rng.usize_below(3); let seed = c.rng.next(); let shape = if level >= 2 { 0 } else { c.rng.below(3) as u32 };
+    c.input_str("n", &n.to_string()); c.input_str("shape", &shape.to_string()); c.input_str("seed", &seed.to_string()); c.set_nontrivial(true);
+    let cfg = { let mut k = match level { 3 => AdvancedStringConfig::memory_optimized(), 2 => AdvancedStringConfig::balanced(), _ => AdvancedStringConfig::default() }; k.compression_level = level; k };
+    wrap_panic(catch(|| -> Res {
+        let mut r = c.rng.fork();
+        let mut v = AdvancedStringVec::with_config(cfg.clone()); let mut m: Vec<String> = Vec::with_capacity(n); let mut dedup = 0u64;
+        for i in 0..n { let s = huge_str(i, shape, seed); let id = must(v.push(&s), "push")?;
+            if id == m.len() { m.push(s); } else if id < m.len() { if level == 0 { return Err(bad("push_id", format!("level 0 push returned existing handle {id}"))); } if m[id] != s { return Err(bad("dedup_wrong", format!("push {i} returned handle {id} which holds a different string"))); } dedup += 1; } else { return Err(bad("push_id", format!("push returned handle {id} > len {}", m.len()))); }
+            if i % 4096 == 0 || (65534..65539).contains(&i) { opt_eq("get", id, v.get(id), Some(&m[id])).map_err(|f| bad("get_after_push", f.detail))?; if v.len() != m.len() { return Err(bad("len", format!("len {} want {} handles", v.len(), m.len()))); } c.ev(2); } }
+        c.note("dedup_hits", dedup); c.note("handles", m.len() as u64);
+        let check = |v: &AdvancedStringVec, r: &mut Rng, c: &mut Case| -> Res {
+            if v.len() != m.len() { return Err(bad("len", format!("len {} want {} handles", v.len(), m.len()))); }
+            for i in huge_positions(m.len(), r, 4000) { opt_eq("get", i, v.get(i), Some(&m[i]))?; if v.get_bytes(i) != Some(m[i].as_bytes()) { return Err(bad("content", format!("get_bytes({i})"))); } }
+            opt_eq("get", m.len(), v.get(m.len()), None)?;
+            let mut k = 0; for (i, s) in v.iter().enumerate() { if s != m[i] { return Err(bad("iter", format!("iter() element {i} differs"))); } k += 1; } if k != m.len() { return Err(bad("iter", "iter() length".into())); }
+            c.ev(m.len() as u64 + 8000); Ok(()) };
+        check(&v, &mut r, c)?;
+        let cl = v.clone(); check(&cl, &mut r, c).map_err(|f| bad(&format!("clone_{}", f.oracle), f.detail))
+    }))
+}
+
+// ---------------------------------------------------------------------------------------------
 pub fn run(ctx: &mut Ctx) {
     let per = ctx.n(120, 2800) as u64;           // histories per (target, family)
     let micro = ctx.n(16, 64) as u64;
@@ -944,6 +1355,24 @@ pub fn run(ctx: &mut Ctx) {
         for lv in 0..4u8 { ctx.case(&format!("advstr_l{lv}"), "micro", idx, |c| drive_advstr(c, true, lv)); }
     }
     for idx in 0..4 { ctx.case("sortable", "huge_string", idx, |c| drive_sortable_huge(c, idx)); }
+
+    // huge_ families (large counts / capacities just above powers of two); a handful of cases each
+    let hn = ctx.n(2, 30) as u64; let hn_mmap = ctx.n(2, 10) as u64;
+    macro_rules! vec_huge { ($name:expr, $t:ty, $n:expr) => { for idx in 0..$n { ctx.case($name, "huge_cap", idx, |c| drive_vec_huge::<$t>(c, true, idx)); ctx.case($name, "huge_grow", idx, |c| drive_vec_huge::<$t>(c, false, idx)); } } }
+    vec_huge!("fastvec", FastVec<Tracked>, hn); vec_huge!("fastvec_u64", FastVec<u64>, hn); vec_huge!("fastvec_u8", FastVec<u8>, hn);
+    vec_huge!("valvec32", VvNoSet, hn); vec_huge!("valvec32_set", ValVec32<Tracked>, hn); vec_huge!("valvec32_u64", ValVec32<u64>, hn);
+    vec_huge!("cachevec", CacheAlignedVec<Tracked>, hn); vec_huge!("mmapvec_u64", Mv<u64>, hn_mmap); vec_huge!("mmapvec_u8", Mv<u8>, hn_mmap);
+    for idx in 0..hn { ctx.case("bumpvec", "huge_fill", idx, |c| drive_bumpvec_huge(c)); }
+    for idx in 0..ctx.n(4, 40) as u64 { ctx.case("autoq", "huge_cap_wrap", idx, |c| drive_autoq_huge(c, "huge_cap_wrap", idx)); }
+    for idx in 0..hn { ctx.case("autoq", "huge_grow", idx, |c| drive_autoq_huge(c, "huge_grow", idx)); ctx.case("fixedq_n65537", "huge_wrap", idx, |c| drive_fixedq_huge(c)); }
+    for idx in 0..hn {
+        ctx.case("sortable", "huge_count", idx, |c| drive_sortable_huge_count(c)); ctx.case("zosorted", "huge_count", idx, |c| drive_zosorted_huge(c));
+        ctx.case("bitpacked32", "huge_count", idx, |c| drive_bitpacked_huge::<BitPackedStringVec32>(c, || BitPackedStringVec32::with_capacity(65537)));
+        ctx.case("bitpacked64", "huge_count", idx, |c| drive_bitpacked_huge::<BitPackedStringVec64>(c, || BitPackedStringVec64::new()));
+        ctx.case("fixedlen_n4", "huge_count", idx, |c| drive_fixedlen_huge::<4>(c, false)); ctx.case("fixedlen_n16", "huge_count", idx, |c| drive_fixedlen_huge::<16>(c, false));
+        ctx.case("fixedlen_n300", "huge_arena_limit", idx, |c| drive_fixedlen_huge::<300>(c, true));
+        for lv in 0..4u8 { ctx.case(&format!("advstr_l{lv}"), "huge_count", idx, |c| drive_advstr_huge(c, lv)); }
+    }
 
     // process-killing probes last (a death is reported by the orchestrator as an unfinished case)
     for idx in 0..10 { ctx.case("mmapvec_u64", "simd_ctor", idx, |c| drive_mmap_simd_ctor(c, idx)); }
